@@ -50,14 +50,14 @@ Fixpoint tapes_of (evs : list ev) (w : world) : world :=
   | Ev q a :: r =>
     let w := tapes_of r w in
     match q, a with
-    | QList, AKeys ks => w <| t_st ::= cons (SKeys ks) |>
-    | QList, AFail => w <| t_st ::= cons SFail |>
-    | QLoad _, AVal v => w <| t_st ::= cons (SVal v) |>
-    | QLoad _, AFail => w <| t_st ::= cons SFail |>
-    | QSave _ _, ADone => w <| t_st ::= cons SDone |>
-    | QSave _ _, AFail => w <| t_st ::= cons SFail |>
-    | QDelete _, ADone => w <| t_st ::= cons SDone |>
-    | QDelete _, AFail => w <| t_st ::= cons SFail |>
+    | QList, AKeys ks => w <| t_st ::= cons (SKeys ks) |> <| t_stf ::= cons false |>
+    | QList, AFail => w <| t_st ::= cons SFail |> <| t_stf ::= cons true |>
+    | QLoad _, AVal v => w <| t_st ::= cons (SVal v) |> <| t_stf ::= cons false |>
+    | QLoad _, AFail => w <| t_st ::= cons SFail |> <| t_stf ::= cons true |>
+    | QSave _ _, ADone => w <| t_st ::= cons SDone |> <| t_stf ::= cons false |>
+    | QSave _ _, AFail => w <| t_st ::= cons SFail |> <| t_stf ::= cons true |>
+    | QDelete _, ADone => w <| t_st ::= cons SDone |> <| t_stf ::= cons false |>
+    | QDelete _, AFail => w <| t_st ::= cons SFail |> <| t_stf ::= cons true |>
     | QDial, ADial ok => w <| t_dial ::= cons ok |>
     | QWrite _ [], _ => w
     | QWrite _ _, AWr n r => w <| t_wr ::= cons (n, r) |>
@@ -65,11 +65,14 @@ Fixpoint tapes_of (evs : list ev) (w : world) : world :=
     | _, _ => w
     end
   end.
-Definition empty_world : world := mkWorld [] [] [] [] [].
+Definition empty_world : world := mkWorld [] [] None [] [] [] [].
+(* map mode: the model keeps the Persistence content itself *)
+Definition map_world (m : store) : world := mkWorld [] [] (Some m) [] [] [] [].
+Definition store_of (w : world) : store := match w_store w with Some m => m | None => [] end.
 Definition reqs_of (evs : list ev) : list req := map (fun e => match e with Ev q _ => q end) evs.
 
 Definition tapes_empty (w : world) : bool :=
-  match t_st w, t_dial w, t_wr w, t_rd w with [], [], [], [] => true | _, _, _, _ => false end.
+  match t_stf w, t_dial w, t_wr w, t_rd w with [], [], [], [] => true | _, _, _, _ => false end.
 
 (* insertion sort of completions by request id, exchange events grouped by id (stable) *)
 Fixpoint ins_done (x : N * err * list (list N)) (l : list (N * err * list (list N))) :=
@@ -90,20 +93,23 @@ Definition sort_xev (newest_first : list (N * option err)) := fold_right ins_xev
 
 Inductive verdict := Agree | Disagree (what : N).   (* 1 script, 2 requests, 3 return, 4 completions, 5 exchanges, 6 online, 7 tapes left *)
 
-Definition check_step (c : client) (s : stepobs) : client * verdict :=
-  match step c (so_op s) (tapes_of (so_evs s) empty_world) with
-  | None => (c, Disagree 1)
+Definition check_step (cm : client * store) (s : stepobs) : (client * store) * verdict :=
+  let '(c, m) := cm in
+  match step c (so_op s) (tapes_of (so_evs s) (map_world m)) with
+  | None => (cm, Disagree 1)
   | Some ((c', r), w) =>
+    let c' := (c', store_of w) in
+    let c'k := fst c' in
     if negb (eqb_of (list_eq_dec req_eq_dec) (rev (w_log w)) (reqs_of (so_evs s))) then (c', Disagree 2) else
     if negb (eqb_of retv_eq_dec r (so_ret s)) then (c', Disagree 3) else
-    if negb (eqb_of (list_eq_dec done_eq_dec) (sort_done (k_done c')) (so_done s)) then (c', Disagree 4) else
-    if negb (eqb_of (list_eq_dec xev_eq_dec) (sort_xev (k_xev c')) (so_xev s)) then (c', Disagree 5) else
-    if negb (Bool.eqb (k_online c') (so_online s)) then (c', Disagree 6) else
+    if negb (eqb_of (list_eq_dec done_eq_dec) (sort_done (k_done c'k)) (so_done s)) then (c', Disagree 4) else
+    if negb (eqb_of (list_eq_dec xev_eq_dec) (sort_xev (k_xev c'k)) (so_xev s)) then (c', Disagree 5) else
+    if negb (Bool.eqb (k_online c'k) (so_online s)) then (c', Disagree 6) else
     if negb (tapes_empty w) then (c', Disagree 7) else
     (c', Agree)
   end.
 
-Fixpoint check_steps (c : client) (l : list stepobs) (i : N) : option (N * N) :=
+Fixpoint check_steps (c : client * store) (l : list stepobs) (i : N) : option (N * N) :=
   match l with
   | [] => None
   | s :: r => match check_step c s with
@@ -116,14 +122,14 @@ Fixpoint check_steps (c : client) (l : list stepobs) (i : N) : option (N * N) :=
 Definition hist_check (h : histcase) : option (N * N) :=
   match h with
   | Hist cf cid ievs iret steps =>
-    match op_init cf cid (tapes_of ievs empty_world) with
+    match op_init cf cid (tapes_of ievs (map_world [])) with
     | None => Some (0, 1)
     | Some ((oc, r), w) =>
       if negb (eqb_of (list_eq_dec req_eq_dec) (rev (w_log w)) (reqs_of ievs)) then Some (0, 2) else
       if negb (eqb_of retv_eq_dec r (RetErr iret)) then Some (0, 3) else
       match oc with
       | None => match steps with [] => None | _ => Some (0, 3) end
-      | Some c => check_steps c steps 1
+      | Some c => check_steps (c, store_of w) steps 1
       end
     end
   end.
